@@ -277,7 +277,35 @@ func oracleC02(x *Exec, r *StepRec) {
 			exp[hx(resolveAddr(m.To))] += m.Amount
 		case "call":
 			if x.cfg.ModuleService && m.Svc == types.OraclePriceServiceName {
-				return // module-service call: settled inside the tx; covered by C01 and the known finding M1
+				// a call to a module-reserved service is issued, paid for and answered within this one step: the consumer
+				// pays exactly the fee of the request issued for it, and that fee is settled at once like any response
+				for _, rid := range post.ReqIDs() {
+					if _, old := pre.Req[rid]; old {
+						continue
+					}
+					q := post.Req[rid]
+					fee := coinsStake(q.ServiceFee)
+					c, ok := post.Ctx[hx(q.RequestContextId)]
+					if !ok || fee == 0 {
+						continue
+					}
+					exp[hx(c.Consumer)] -= fee
+					exp[hx(requestAcc)] += fee
+					resp, answered := post.Resp[rid]
+					switch {
+					case !answered:
+						// (not answered inside the step: stays pending like an ordinary request)
+					case outputKind(resp.Output) == "malformed":
+						exp[hx(c.Consumer)] += fee
+						exp[hx(requestAcc)] -= fee
+					default:
+						tax := floorMul(fee, decRat(pre.Params.ServiceFeeTax))
+						exp[hx(feeCollAcc)] += tax
+						exp[hx(requestAcc)] -= tax
+						expEarned[hx(q.Provider)+hx([]byte("stake"))] += fee - tax
+					}
+					x.stats.inc("probe_module_service_call_settled")
+				}
 			}
 		}
 	}
